@@ -199,8 +199,9 @@ func refusedSocketLeavesNothing(c *Ctx, rule string) {
 		if !ok {
 			continue
 		}
-		as := nonNilAssumes(fn, call)
-		skip, trail := PrunedCanReach(fn, rm.Instr, as, nil, callPred(`\(\*sio\.serverSocket\)\.leaveAll`))
+		in := rm.Instr.Parent() // the function the call is written in (add itself, or a private helper split off it)
+		as := nonNilAssumes(in, call)
+		skip, trail := PrunedCanReach(in, rm.Instr, as, nil, callPred(`\(\*sio\.serverSocket\)\.leaveAll`))
 		c.Ob(rule, "sio.Namespace.add/refused-socket-leaves-its-rooms", rm.Pos(), !skip && len(as) > 0, "after a middleware refused the socket, add returns without leaveAll(): rooms a middleware (or the restored session) joined it to stay in the adapter for ever, one set per refused attempt — SocketRooms and room broadcasts still see the sid: "+trailString(p, trail))
 	}
 }
